@@ -63,6 +63,8 @@ def run(model: Model, rep: Report, tier: str) -> None:
             if sa.canon_top(("setof", it)) != sa.canon_top(("setof", Y)) or conds:
                 problems.append("the quantifier does not range over exactly the outcomes")
             call = comp[2]
+            while call[0] == "truth":
+                call = call[1]
             if not (call[0] == "call" and call[1] == CI):
                 problems.append("the test is not are_d_separated")
             else:
@@ -113,6 +115,10 @@ def run(model: Model, rep: Report, tier: str) -> None:
             p4.append(f"idc() can fail with {cls} when [{short(show_formula(fm), 200)}]")
             continue
         v = sa.rewrite(p.value)
+        if v[0] == "op" and v[1] == "/" and v[3][0] == "meth" and v[3][2] == "marginalize" and v[3][1] == v[2]:
+            # e / e.marginalize(r) is e.normalize_marginalize(r)  (that identity is R13.4's obligation for normalize_marginalize)
+            r_ = kwargs_of(v[3]).get("ranges", v[3][3][0] if v[3][3] else None)
+            v = ("meth", v[2], "normalize_marginalize", (), (("ranges", r_),))
         if v[0] == "recurse" and v[1] == IDC:
             seen_rec = True
             zs = [c[1] for c in p.conds if c[0] == "iter-elem"]
